@@ -1,10 +1,17 @@
 package main
 
-import "strings"
+import (
+	"encoding/json"
+	"strconv"
+	"strings"
+)
 
 // ---- alphabets (DESIGN §4 C17) ----------------------------------------------
 
-var elemAlphabet = []string{"", "a", "b b", "é"}
+// The last three elements are not valid UTF-8 (a lone 0xE9, the first byte of
+// a two-byte rune, 0xFF): match groups are bytes from a log line, and every
+// helper has to hand them on byte for byte.
+var elemAlphabet = []string{"", "a", "b b", "é", "\xe9", "\xc3", "\xff"}
 var delims = []string{",", "::", " ", "é", "ab"}
 
 // lists of 0..maxLen elements over elemAlphabet, shortest first
@@ -176,8 +183,40 @@ func sources() []source {
 }
 
 type ctx struct {
-	G []string          `json:"groups"`
+	G []string
+	K map[string]string
+}
+
+// Groups may hold bytes that are not UTF-8, which encoding/json would replace;
+// they are stored as Go string literals.
+type ctxJSON struct {
+	G []string          `json:"groups_go_quoted"`
 	K map[string]string `json:"keys"`
+}
+
+func (c ctx) MarshalJSON() ([]byte, error) {
+	j := ctxJSON{K: c.K}
+	for _, g := range c.G {
+		j.G = append(j.G, strconv.Quote(g))
+	}
+	return json.Marshal(j)
+}
+
+func (c *ctx) UnmarshalJSON(b []byte) error {
+	var j ctxJSON
+	if err := json.Unmarshal(b, &j); err != nil {
+		return err
+	}
+	c.K = j.K
+	c.G = nil
+	for _, g := range j.G {
+		u, err := strconv.Unquote(g)
+		if err != nil {
+			return err
+		}
+		c.G = append(c.G, u)
+	}
+	return nil
 }
 
 func listCtx(l []string, delim string) ctx {
@@ -241,7 +280,7 @@ func enumerate(quick bool, f func(p *program) bool) {
 		strLen = 4
 	}
 	var strs []ctx
-	alpha := []string{"a", ":", ",", "é"}
+	alpha := []string{"a", ":", ",", "é", "\xe9", "\xc3", "\xff"}
 	var gen func(pre string, n int)
 	gen = func(pre string, n int) {
 		strs = append(strs, ctx{G: []string{"", pre}, K: caseKeys})
